@@ -23,7 +23,7 @@ def shards(tier):
 def floors(tier):
     return {"variants": 20000, "bases": 1500, "nop_in_index_position": 5000, "nop_after_branch_or_ring": 5000,
             "exhaustive_single_insertions": 3000, "padding_roundtrips": 1000, "bases_that_raise": 50, "M6.calls": 20000,
-            "nop_at_fragment_edge": 2000}
+            "nop_at_fragment_edge": 2000, "bases_with_empty_fragment": 100}
 
 
 def outcome(sf, x, **k):
@@ -63,6 +63,10 @@ def run(ctx):
         toks = [t for t in tokens_with_dots(x) if t != "[nop]"]
         if rng.random() < 0.2 and toks:
             toks.insert(rng.randrange(len(toks) + 1), rng.choice(['[Xx]', '[Branch9]', '[CH9]']))
+        if rng.random() < 0.12:
+            # empty fragments: a [nop]-only fragment between two dots is the same as nothing between them
+            toks.insert(rng.randrange(len(toks) + 1), ".")
+            ctx.count("bases_with_empty_fragment")
         base = "".join(toks)
         r0 = outcome(sf, base)
         ra0 = outcome(sf, base, attribute=True)
@@ -94,7 +98,7 @@ def run(ctx):
             if r != r0:
                 ctx.finding("nop-changes-decoder-outcome", payload, "%r -> %r" % (r0, r)[:600])
             ra = outcome(sf, y, attribute=True)
-            if ra[0] != ra0[0] or (ra[0] == "ok" and (ra[1][0] != ra0[1][0] or ra[1][0] != r0[1])):
+            if ra != ra0 or (ra[0] == "ok" and ra[1][0] != r0[1]):
                 ctx.finding("nop-changes-decoder-outcome-with-attribution", payload, "%r -> %r" % (ra0, ra)[:600])
 
         # forced placements
@@ -126,7 +130,9 @@ def run(ctx):
             for p in range(len(toks) + 1):
                 variant([p], "single@%d" % p)
                 ctx.count("exhaustive_single_insertions")
-        # padding through the encoding utilities
+        # padding through the encoding utilities (their domain: single dots strictly between symbols)
+        if ".." in base or base.startswith(".") or base.endswith("."):
+            continue
         syms = sorted(set(t for t in toks) | {"[nop]", "."})
         stoi = {s: i for i, s in enumerate(syms)}
         itos = {i: s for s, i in stoi.items()}
